@@ -176,9 +176,12 @@ C14_JOBS = [
          function="sse::InlinedMemcmpEq / sse::InlinedMemcmp", replace=["memcmp"],
          claims="the sse bodies are memcmp(a,b,s)==0 and memcmp(l,r,s) on exactly s bytes (libc memcmp trusted, uninterpreted)"),
 ]
-C14_JOBS.append(dict(id="C14.DNode.Less", src="c14_memcmp.c", harness="h_Less", units=C14_UNITS + ["DNode.Less"], defs=["VEC_LEN=32", "UNIT_Less"], arch="avx2", route="L",
+C14_JOBS.append(dict(id="C14.DNode.Less", src="c14_memcmp.c", harness="h_Less", units=C14_UNITS + ["DNode.Less", "DNode.findMemberImpl"], defs=["VEC_LEN=32", "UNIT_Less"], arch="avx2", route="L",
     function="DNode::Less::operator() (static dispatch)", timeout=600, replay="less",
     claims="all key lengths: against InlinedMemcmp's contract (sign of memcmp over min(n1,n2) bytes) the comparator is asymmetric and two keys are equivalent exactly when they have the same length and bytes; compares exactly min(n1,n2) bytes"))
+C14_JOBS.append(dict(id="C14.DNode.findMemberImpl", src="c14_memcmp.c", harness="h_findMember", units=C14_UNITS + ["DNode.Less", "DNode.findMemberImpl"], defs=["VEC_LEN=32", "UNIT_FindMember"], arch="avx2",
+    route="B(<=4 members)", bound="objects of at most 4 members, names and key of at most 64 bytes", function="DNode::findMemberImpl(const char*, size_t) (static dispatch, no map)", unwind=6, timeout=600, replay="findmember",
+    claims="bounded: against InlinedMemcmpEq's contract the linear scan returns the first member whose name has the same length and the same bytes, MemberEnd() otherwise; the byte comparison is only called with equal lengths, on exactly len bytes"))
 PROPS["C14"] = dict(level="other", jobs=C14_JOBS, trusted_base=COMMON_TRUST + MODEL_TRUST, assumptions=[], undecided=[], explanation="")
 
 
